@@ -3,9 +3,11 @@
 package c09
 
 import (
+	"bufio"
 	"bytes"
 	"fmt"
 	"io"
+	"os"
 	"sort"
 	"testing"
 
@@ -154,6 +156,24 @@ func run(c Case) (res ev.Result) {
 		res.Violation = s
 		return
 	}
+	// sources with optional interfaces a reader might sniff for
+	if s := try("bufio.Reader (io.ByteReader)", []int{}, false, bufio.NewReaderSize(&faultio.FragReader{Data: b, Cuts: []int{len(b) / 2}}, 16)); s != "" {
+		res.Violation = s
+		return
+	}
+	if s := try("reader with a failing Seek method (pipe)", []int{}, false, &faultio.FailingSeeker{R: bytes.NewReader(b)}); s != "" {
+		res.Violation = s
+		return
+	}
+	if pr, pw, err := os.Pipe(); err == nil {
+		go func() { pw.Write(b); pw.Close() }()
+		s := try("os.Pipe read end (*os.File)", []int{}, false, pr)
+		pr.Close()
+		if s != "" {
+			res.Violation = s
+			return
+		}
+	}
 	for _, eof := range []bool{false, true} {
 		if s := try("single read", []int{}, eof, &faultio.FragReader{Data: b, EOFWithData: eof}); s != "" {
 			res.Violation = s
@@ -283,7 +303,7 @@ func genCase(t *rapid.T) Case {
 }
 
 var files = ev.NewCheck("C09", "files",
-	"rapid: valid files from the byte-level grammar (C02 domain, payloads <= 200) and from the library's writer (C01 domain), whole or truncated at a drawn offset (for half of the whole files additionally EVERY truncation, each read from memory vs. single read with EOF, byte-wise, last byte together with EOF, two halves); payloads <= 200 bytes, in one case of ten up to 70000 bytes (crossing the 4 KiB / 64 KiB buffer thresholds; for files > 1500 bytes the split points are all offsets around field boundaries and size thresholds plus a stride); per file: one-byte reads, a single read, EVERY single split point, 1..5 random partitions, each with and without the final bytes delivered together with io.EOF; readers never return 0 bytes without error; oracle = differential against smf.ReadFrom(bytes.Reader): both fail or both succeed, same failure kind (nil / ErrMissing / other), deep-equal value (format, division, events, tempo map); the per-fragmentation counts are in part 'fragmentations'",
+	"rapid: valid files from the byte-level grammar (C02 domain, payloads <= 200) and from the library's writer (C01 domain), whole or truncated at a drawn offset (for half of the whole files additionally EVERY truncation, each read from memory vs. single read with EOF, byte-wise, last byte together with EOF, two halves); payloads <= 200 bytes, in one case of ten up to 70000 bytes (crossing the 4 KiB / 64 KiB buffer thresholds; for files > 1500 bytes the split points are all offsets around field boundaries and size thresholds plus a stride); per file: one-byte reads, a single read, a bufio.Reader, a reader whose Seek method fails, a real os.Pipe, EVERY single split point, 1..5 random partitions, each with and without the final bytes delivered together with io.EOF; readers never return 0 bytes without error; oracle = differential against smf.ReadFrom(bytes.Reader): both fail or both succeed, same failure kind (nil / ErrMissing / other), deep-equal value (format, division, events, tempo map); the per-fragmentation counts are in part 'fragmentations'",
 	genCase, run)
 
 func TestPropFiles(t *testing.T) { files.Rapid(t, 100, 3000) }
